@@ -1,7 +1,6 @@
 package props
 
 import (
-	stdxml "encoding/xml"
 	"errors"
 	"fmt"
 	"strings"
@@ -333,14 +332,14 @@ func logoutAdversarial(r *core.Run, prop string) {
 		do := world.Guard(func() error {
 			if endpoint == "LogoutRequest" {
 				lr := &saml2.LogoutRequest{}
-				if derr = stdxml.Unmarshal([]byte(xml), lr); derr != nil {
+				if derr = world.AppDecode(xml, lr); derr != nil {
 					return nil
 				}
 				decoded = true
 				return s.Node.SP.ValidateDecodedLogoutRequest(lr)
 			}
 			lr := &types.LogoutResponse{}
-			if derr = stdxml.Unmarshal([]byte(xml), lr); derr != nil {
+			if derr = world.AppDecode(xml, lr); derr != nil {
 				return nil
 			}
 			decoded = true
